@@ -42,6 +42,8 @@ func runC16(c *core.Ctx) {
 	c.Trust("C20 contract of Reader.ReadBytes (consumes len(buf) octets or records the sticky error)", "binary.BigEndian semantics")
 	c.NotDecided("set equality of concrete parameter sets on concrete inputs (follows from the structural rules; not executed)")
 
+	// the reader-style parsers rely on ReadBytes filling the caller's slice completely or recording the error: its C20 rules
+	importRules(c, "C20", "C16-PARSE", func(o core.Obligation) bool { return strings.Contains(o.Key, "packet.Reader.ReadBytes") })
 	widthRule(c, "smpp", "TLV", "Bytes")
 	widthRule(c, "smgp", "Option", "Bytes")
 
